@@ -41,6 +41,9 @@ type Ctx struct {
 
 	eff     *effEngine
 	rng     *rangeEngine
+	// starTableOK: the star accessors R16.5 followed over their whole input domain without a deviation (every
+	// value it states is an index 0..8); nil until R16.5 has run on this tree
+	starTableOK map[*ssa.Function]bool
 	scratch map[string]interface{}
 	tables  *tableEval
 	declDoc map[*ssa.Function]string
